@@ -3,7 +3,7 @@
 # worktree /tmp/seed/<Cxx> that carries a seeded change. Evidence and replays go to a scratch directory.
 id="$1"; tier="${2:-quick}"; shift; shift
 checks="${@:-$id}"
-wt=/tmp/seed/$id
+wt=${SEEDROOT:-/tmp/seed}/$id
 export VERIF_REPO=$wt VERIF_BUILD=/dev/shm/vb-seed-$id VERIF_OUT=/dev/shm/vb-seed-$id/out
 for c in $checks; do
   out=$(/verif/run $c $tier 2>&1); rc=$?
